@@ -129,12 +129,23 @@ def _main(mod, pid, args, seed, workdir, t0):
     print('replay: no violation reproduced')
     return 0
 
+  rdir0 = os.path.join(ROOT, 'replay', pid)
+  if os.path.isdir(rdir0):
+    for fn in os.listdir(rdir0):
+      if fn.startswith('seed%d_' % seed):
+        os.unlink(os.path.join(rdir0, fn))
   specs = mod.plan(args.tier, seed)
   # Known-finding witnesses are executed first, as slice 'kf'.
   kf_specs = []
   for key, e in sorted(open_known.items()):
     kf_specs.append({'mode': 'replay', 'witness': e['witness'], 'kf_key': key,
                      'hashseed': e.get('hashseed', 0)})
+  # Witnesses of findings that were repaired ('fixed') are ordinary cases: if
+  # one fails again it is reported as a violation like any other.
+  for e in known:
+    if e.get('status') == 'fixed' and e.get('witness'):
+      specs.append({'mode': 'replay', 'witness': e['witness'], 'hashseed': e.get('hashseed', 0),
+                    'regress_key': e['key']})
   all_specs = kf_specs + specs
   timeout = getattr(mod, 'SLICE_TIMEOUT', {}).get(args.tier, 1800)
 
